@@ -25,13 +25,15 @@ type Case struct {
 	File   string // file name (main.tf or main.tf.json)
 	Text   string
 	Family string // seed | prefix | edit | seq | json ...
+	// More: additional files of the same path (multi-file worlds)
+	More []world.FileSpec
 	// PosFrom/PosTo restrict cursor positions to [PosFrom, PosTo] (byte offsets); PosTo<0 = all
 	PosFrom, PosTo int
 }
 
 // Spec builds the world spec of a case.
 func (cs *Case) Spec() *world.Spec {
-	return EntrySpec(cs.Entry, []world.FileSpec{{Name: cs.File, Text: cs.Text}})
+	return EntrySpec(cs.Entry, append([]world.FileSpec{{Name: cs.File, Text: cs.Text}}, cs.More...))
 }
 
 // EntrySpec builds a world spec from a catalogue entry and the files of its first path.
@@ -44,7 +46,11 @@ func EntrySpec(e *gen.Entry, files []world.FileSpec) *world.Spec {
 
 // Files renders the files of a case for a replay.
 func (cs *Case) Files() []report.FileSpec {
-	return []report.FileSpec{{Path: "/p0", Name: cs.File, Text: cs.Text}}
+	out := []report.FileSpec{{Path: "/p0", Name: cs.File, Text: cs.Text}}
+	for _, m := range cs.More {
+		out = append(out, report.FileSpec{Path: "/p0", Name: m.Name, Text: m.Text})
+	}
+	return out
 }
 
 // Ctx is handed to the per-result callback.
